@@ -71,9 +71,9 @@ set_option maxHeartbeats 8000000 in
 theorem afterHead_sw (hm : s.mode = .afterHead) (htm : s.tmodes = []) (t : Token) : SwPost c t s (afterHead c s t) := by
   have h1 : s.mode ≠ .text := by simp [hm]
   have push : ∀ (h : El), callsHead t = true →
-      SwPost c t s ((inHead c (s.onTree (·.pushEl h)) t).mapState (·.removeFromStack h.id)) := by
+      SwPost c t s ((inHead c (s.onTree (·.pushEl h)) t).mapState (·.removeFromStack h)) := by
     intro h hc
-    refine SwPost.mapState (fun x => x.removeFromStack h.id) (fun x => ⟨rfl, rfl⟩) ?_
+    refine SwPost.mapState (fun x => x.removeFromStack h) (fun x => ⟨rfl, rfl⟩) ?_
     exact SwPost.congr_mode (s1 := s.onTree (·.pushEl h)) rfl rfl (inHead_sw (s := s.onTree (·.pushEl h)) h1 htm t (Or.inr hc))
   sw_cases t [afterHead]
     (first | exact inHead_sw h1 htm _ (Or.inr (by rfl)) | exact push _ (by rfl))
